@@ -383,6 +383,7 @@ func (e *Exec) callValue(th *Thread, fv Value, args []Value) Value {
 		e.raise(th, "nil-func-call", nil)
 	}
 	if f.intr != nil {
+		e.abandon("engine-provided function value " + f.name)
 		return f.intr(e, th, args)
 	}
 	return e.callClosure(th, f.fn, f.free, args)
